@@ -23,12 +23,62 @@ def _defs(fn, name):
                     for t in a.targets)]
 
 
+def _column_space(ctx, rule, repo, cls, fn, construct):
+    """The columns that are kept from the sampled individual parameters
+    (`dims`) are positions in the matrix returned by the population model's
+    sample(), which has n_dim() columns per sub-model: the cursor that
+    produces those positions advances by the sub-model's n_dim() on every
+    path through the loop — also for sub-models that are skipped."""
+    import sympy as sp
+    from .cursors import cursor_increments, _zero_inits
+    zeros = _zero_inits(fn)
+    for loop in ast.walk(fn):
+        if not isinstance(loop, ast.For):
+            continue
+        # the loop that fills the index list from range(cursor, ...)
+        fills = [a for a in ast.walk(loop) if isinstance(a, ast.AugAssign)
+                 and 'range(' in U(a.value)]
+        if not fills:
+            continue
+        rng_ = [c for c in ast.walk(fills[0].value) if isinstance(
+            c, ast.Call) and U(c.func) == 'range' and c.args]
+        if not rng_ or not isinstance(rng_[0].args[0], ast.Name):
+            continue
+        v = rng_[0].args[0].id
+        if v not in zeros:
+            continue            # positions not taken from a running cursor
+        elem = U(loop.target)
+        want = sp.Symbol('%s.n_dim()' % elem)
+        incs = cursor_increments(loop, v)
+        where = repo.loc(loop, cls, fn.name)
+        bad = [(c, i) for c, i in incs if i is None or sp.expand(
+            i - want) != 0]
+        if not incs:
+            continue
+        if not bad:
+            ctx.ok(rule, where, construct,
+                   'kept columns are positions in the sampled matrix: the '
+                   'cursor `%s` advances by %s.n_dim() on all %d paths' % (
+                       v, elem, len(incs)))
+        else:
+            conds, inc = bad[0]
+            ctx.violation(
+                rule, where, construct, 'column space',
+                'the cursor `%s` that produces the kept column positions '
+                'advances by `%s` on the path {%s}; the sampled matrix has '
+                '%s.n_dim() columns per sub-model, so positions after such '
+                'a sub-model select the wrong columns' % (
+                    v, inc, ', '.join('%s is %s' % (U(t)[:40], b)
+                                      for t, b in conds) or 'always', elem))
+
+
 def r18_1(ctx, repo):
     rule = 'R18.1'
     n = 0
     for cls in ('HierarchicalLogPosterior', 'PopulationFilterLogPosterior'):
         fn = repo.method(cls, 'sample_initial_parameters')
         construct = '%s.sample_initial_parameters' % cls
+        _column_space(ctx, rule, repo, cls, fn, construct)
         # the prior sample fills one block of every row
         tops = [a for a in ast.walk(fn) if isinstance(a, ast.Assign)
                 and isinstance(a.targets[0], ast.Subscript)
@@ -58,30 +108,61 @@ def r18_1(ctx, repo):
         c = pops[0]
         kw = {k.arg: k.value for k in c.keywords}
         p = kw.get('parameters', c.args[0] if c.args else None)
-        loops = []
+        # iteration constructs around the draw: for loops and comprehension
+        # generators, innermost first -> (target text, iterable node)
+        iters = []
         cur = getattr(c, '_parent', None)
         while cur is not None and cur is not fn:
             if isinstance(cur, ast.For):
-                loops.append(cur)
+                iters.append((U(cur.target), cur.iter))
+            if isinstance(cur, (ast.ListComp, ast.GeneratorExp)):
+                for g in reversed(cur.generators):
+                    iters.append((U(g.target), g.iter))
             cur = getattr(cur, '_parent', None)
-        row = U(loops[0].target) if loops else None
         wherec = repo.loc(c, cls, fn.name)
-        if isinstance(p, ast.Name):
+        if isinstance(p, ast.Name) and p.id not in [t for t, _ in iters]:
             d = [a for a in _defs(fn, p.id) if a.lineno < c.lineno]
             if d:
                 p = d[-1].value
-        ptxt = U(p).replace(' ', '') if p is not None else ''
+
+        def norm(x):
+            return U(x).replace(' ', '') if x is not None else ''
+
+        def row_block(p):
+            """-> (row variable, column-slice text) of `p` if it is the
+            block of one row of initial_params, visited row by row."""
+            for tgt, it in iters:
+                # for k in range(n_samples): initial_params[k, SL]
+                if isinstance(p, ast.Subscript) and U(p.value) == \
+                        'initial_params' and isinstance(
+                        p.slice, ast.Tuple) and len(p.slice.elts) == 2 \
+                        and U(p.slice.elts[0]) == tgt and isinstance(
+                        it, ast.Call) and U(it.func) == 'range' \
+                        and norm(it.args[-1] if len(it.args) < 3 else None) \
+                        == 'n_samples':
+                    return tgt, norm(p.slice.elts[1])
+                # for row in initial_params[:, SL]: row
+                if isinstance(p, ast.Name) and p.id == tgt and isinstance(
+                        it, ast.Subscript) and U(it.value) == \
+                        'initial_params' and isinstance(
+                        it.slice, ast.Tuple) and len(it.slice.elts) == 2 \
+                        and norm(it.slice.elts[0]) == ':':
+                    return tgt, norm(it.slice.elts[1])
+            return None
+        rb = row_block(p)
+        ptxt = norm(p)
+        row = rb[0] if rb else (iters[0][0] if iters else None)
         if cls == 'PopulationFilterLogPosterior':
-            want = 'initial_params[%s,:n_pop]' % row
+            want_sl = ':n_pop'
         else:
-            want = 'initial_params[%s,%s]' % (row, (top_slice or '').replace(
-                ' ', ''))
-        if row and ptxt == want:
+            want_sl = (top_slice or '').replace(' ', '')
+        want = 'initial_params[%s,%s]' % (row, want_sl)
+        if rb and rb[1] == want_sl:
             ctx.ok(rule, wherec, construct,
                    'individual-level entries of initial point k are drawn '
                    'from the population model at the population values of '
                    'the same point k')
-        elif 'initial_params' not in ptxt:
+        elif 'initial_params' not in ptxt and not rb:
             ctx.error(rule, '%s: population values `%s` not traced to the '
                       'initial points' % (construct, ptxt[:50]))
         else:
@@ -200,16 +281,52 @@ def r18_2(ctx, repo):
         else:
             ctx.error(rule, '%s: individual coordinate flows through `%s`'
                       % (construct, unknown[0][0] if unknown else '?'))
-    # bottom columns are selected by name mask over the full name list
-    masks = [a for a in ast.walk(fn) if isinstance(a, ast.Assign)
-             and U(a.targets[0]) == 'mask']
-    if masks and U(masks[0].value).replace(' ', '') == 'names==parameter':
-        ctx.ok(rule, repo.loc(masks[0], cls, fn.name), construct,
-               'individual-level columns are selected by name over the full '
-               'name list (ID order of the posterior)')
-    else:
-        ctx.error(rule, '%s: column selection idiom not recognised'
+    # bottom columns are selected by a name mask over the full name list:
+    # the data of every DataArray with an `individual` dimension is
+    # chains[:, :, <names == loop parameter>]
+    arrays = [c for c in ast.walk(fn) if isinstance(c, ast.Call)
+              and U(c.func).endswith('DataArray') and any(
+                  k.arg == 'dims' and 'individual' in U(k.value)
+                  for k in c.keywords)]
+    if not arrays:
+        ctx.error(rule, '%s: no DataArray with an individual dimension found'
                   % construct)
+    for c in arrays:
+        data = [k.value for k in c.keywords if k.arg == 'data']
+        data = data[0] if data else (c.args[0] if c.args else None)
+        sel = None
+        if isinstance(data, ast.Subscript) and isinstance(
+                data.slice, ast.Tuple) and len(data.slice.elts) == 3:
+            sel = data.slice.elts[2]
+            if isinstance(sel, ast.Name):
+                d = [a for a in _defs(fn, sel.id) if a.lineno <= c.lineno]
+                sel = d[-1].value if d else sel
+        loopvars = set()
+        cur = getattr(c, '_parent', None)
+        while cur is not None and cur is not fn:
+            if isinstance(cur, ast.For):
+                loopvars |= {x.id for x in ast.walk(cur.target)
+                             if isinstance(x, ast.Name)}
+            cur = getattr(cur, '_parent', None)
+        where = repo.loc(c, cls, fn.name)
+        if isinstance(sel, ast.Compare) and len(sel.ops) == 1 and isinstance(
+                sel.ops[0], ast.Eq) and {U(sel.left),
+                                         U(sel.comparators[0])} & {'names'} \
+                and ({U(sel.left), U(sel.comparators[0])} - {'names'}) \
+                <= loopvars:
+            ctx.ok(rule, where, construct,
+                   'individual-level columns are selected by name over the '
+                   'full name list (ID order of the posterior)')
+        elif sel is None:
+            ctx.error(rule, '%s: column selection of the individual-level '
+                      'samples not recognised' % construct)
+        else:
+            ctx.violation(
+                rule, where, construct, 'column selection',
+                'the individual-level samples are selected with `%s`; the '
+                'columns of one parameter are those whose published name '
+                'equals it (names == parameter), in the posterior\'s ID '
+                'order' % U(sel)[:60])
     # optimisation table
     cls2 = 'OptimisationController'
     fn2 = repo.method(cls2, 'run')
